@@ -3,7 +3,7 @@ import json, os
 from vlib import core
 
 THEOREMS = ["Props.C03." + t for t in [
-    "grammar_wf", "peg_total", "parse_total",
+    "grammar_wf", "peg_total", "parse_total", "grammar_captures", "tree_conforms", "tree_in_bounds", "walker_no_panic",
     "field_ids", "field_ids_written", "enum_values",
     "annotations_append", "annotations_keys_first_occurrence",
     "literal_unescape",
